@@ -41,6 +41,13 @@ FINDINGS = {
               "parseBitVector(\"o0000000000000000000000\") throws the HCL_ASSERT of insertNonStraddling "
               "(BitVectorState.h:925) because octal digit 21 occupies bits 63..65; 21 digits parse"),
         probe=["S probe 2 1", "parse 0 o0000000000000000000000", "resize 0 1", "parse 0 o000000000000000000000", "E"]),
+    "random_then_resize_exposes_stale_bits": dict(
+        key="createRandom",
+        text=("createRandomDefaultBitVectorState / createDefinedRandomDefaultBitVectorState fill whole 64-bit words, "
+              "leaving random bits above size() in the last word; a later resize() to a larger size exposes them instead of "
+              "zeros: two states that compare equal (size 10) differ after both are resize(30)d "
+              "(Coq: C18_resize_exposes_stale_tail_refuted; only tests use these helpers)"),
+        probe=None),
 }
 
 
@@ -566,6 +573,107 @@ def is_fmt16_finding(m):
     return finding_of(m) is not None
 
 
+def seq_valid(lines):
+    """python port of BvsSpec.ops_ok: every operation meets the C++ preconditions / in-bounds access
+    at the sizes current when it runs (used so that shrinking never produces an out-of-bounds replay)"""
+    np_ = nr = 0
+    sz = []
+    try:
+        for line in lines:
+            t = line.split()
+            if not t or t[0] == "#" or t[0] == "E":
+                continue
+            if t[0] == "S":
+                np_, nr = int(t[2]), int(t[3])
+                sz = [0] * nr
+                continue
+            k = t[0]
+            num = lambda i: (1 << 64) - 1 if t[i] == "max" else int(t[i])
+            reg = lambda i: int(t[i])
+
+            def S(i):
+                r = reg(i)
+                if not (0 <= r < nr) or sz[r] is None:
+                    raise ValueError
+                return sz[r]
+            pl = lambda i: 0 <= int(t[i]) < np_
+            nw = lambda z: (z + 63) // 64
+            if k == "resize":
+                if not 0 <= reg(1) < nr:
+                    return False
+                sz[reg(1)] = num(2)
+            elif k in ("get", "set1", "setb", "clear", "toggle"):
+                if not (pl(2) and num(3) < S(1)):
+                    return False
+            elif k == "setrange":
+                if not (pl(2) and num(3) + num(4) <= S(1)):
+                    return False
+            elif k in ("insw", "extw"):
+                if not (pl(2) and num(4) <= 64 and num(3) + num(4) <= S(1)):
+                    return False
+                if k == "extw" and not num(3) // 64 < nw(S(1)):
+                    return False
+            elif k in ("insns", "extns"):
+                if not (pl(2) and num(3) % 64 + num(4) <= 64 and num(3) + num(4) <= S(1)):
+                    return False
+                if k == "extns" and not num(3) // 64 < nw(S(1)):
+                    return False
+            elif k in ("copy", "cmp", "cmpval", "eqdef", "merge"):
+                if k in ("copy", "merge") and reg(1) == reg(3):
+                    return False
+                if k != "copy" and k != "cmp" and np_ < 2:
+                    return False
+                if not (num(2) + num(5) <= S(1) and num(4) + num(5) <= S(3)):
+                    return False
+            elif k == "canrep":
+                sa, sb = num(3), num(4)
+                if sa > S(1):
+                    return False
+                n = S(1) - sa if t[5] == "max" else num(5)
+                if not (sa + n <= S(1) and sb + n <= S(2)):
+                    return False
+            elif k == "exts":
+                if not (0 <= reg(1) < nr and num(3) + num(4) <= S(2)):
+                    return False
+                sz[reg(1)] = num(4)
+            elif k == "inss":
+                if reg(1) == reg(2) or not (S(2) + num(3) <= S(1) and num(4) <= S(2)):
+                    return False
+            elif k == "append":
+                if reg(1) == reg(2):
+                    return False
+                sz[reg(1)] = S(1) + S(2)
+            elif k == "eq":
+                S(1), S(2)
+            elif k in ("allone", "allzero"):
+                if not (pl(2) and num(3) <= S(1)):
+                    return False
+            elif k == "anydef":
+                if not num(2) <= S(1):
+                    return False
+            elif k in ("insbig", "extbig"):
+                if not (num(2) + num(3) <= S(1) and (num(3) <= 64 or num(2) % 64 == 0)):
+                    return False
+                if k == "extbig" and not num(2) // 64 < nw(S(1)):
+                    return False
+            elif k == "parse":
+                if np_ != 2 or not 0 <= reg(1) < nr:
+                    return False
+                sz[reg(1)] = None     # depends on whether the literal is accepted
+            elif k in ("print", "fmt"):
+                if np_ != 2:
+                    return False
+                S(1)
+            elif k == "fmtr":
+                if np_ != 2 or num(2) not in (2, 8, 16) or not num(3) + num(4) <= S(1):
+                    return False
+            else:
+                return False
+    except (ValueError, IndexError):
+        return False
+    return True
+
+
 def shrink(exe, seq_lines, fail_idx):
     """greedy removal of earlier operations while the last one still mismatches"""
     head = seq_lines[0]
@@ -573,6 +681,8 @@ def shrink(exe, seq_lines, fail_idx):
     t0 = time.time()
 
     def fails(cand):
+        if not seq_valid([head] + cand):
+            return []
         mm, _, _ = oracle_run(exe, [head] + cand + ["E"], "shrink", timeout=60)
         return [m for m in mm if m["index"] == len(cand) - 1 and not is_fmt16_finding(m)]
     cur = ops
@@ -664,6 +774,13 @@ def main():
         rep.cov["time_s"] = dict(harness=round(t2 - t1, 1), model=round(t3 - t2, 1))
         if rc2 != 0:
             V.infra_error(f"model driver failed ({rc2}): {err2[-2000:]}")
+        # the hypothesis of theorem C18_sequences, evaluated by the extracted ops_ok on every generated sequence
+        oks = [l.split() for l in err2.splitlines() if l.startswith("OPSOK ")]
+        notok = [o[1] for o in oks if o[2] != "1"]
+        rep.cov["sequences_satisfying_ops_ok"] = dict(checked=len(oks), ok=len(oks) - len(notok),
+                                                      ops_under_theorem=sum(int(o[3]) for o in oks if o[2] == "1"))
+        if notok:
+            V.infra_error("generator bug: sequences violating the Coq precondition ops_ok: " + ", ".join(notok[:5]))
         nlines, diffs = first_diffs(out_cpp, out_ml)
         if diffs:
             tie_broken = f"{len(diffs)}+ result lines differ between the real container and the Coq model"
@@ -704,9 +821,14 @@ def main():
 
     # ---- confirmed findings: probe them on the real library every run ----
     known, fixed = V.known_findings(CID)
+    _, probe_out = V.run([exe, "probe"])
     for fid, fd in FINDINGS.items():
-        pm, _, pout = oracle_run(exe, fd["probe"], "probe_" + fid)
-        if any(finding_of(m) == fid for m in pm):
+        if fd["probe"] is None:
+            present = "PROBE " + fid + " 1" in probe_out
+        else:
+            pm, _, pout = oracle_run(exe, fd["probe"], "probe_" + fid)
+            present = any(finding_of(m) == fid for m in pm)
+        if present:
             hit = [k for k in known if fd["key"] in k]
             if hit:
                 rep.known(hit[0])
